@@ -770,3 +770,14 @@ func vSelectorLists() (n int, fails []string) {
 
 //@ bounded vSelectorLists :is() and :not() with every argument list of one to three class selectors over a, b, c (15 lists) on the 8 elements carrying each subset of the classes (240 selector / element pairs), against the definition
 //@   props C05
+
+// the shared attribute iterator of #id, .class and [attr op val]: an element matches when SOME attribute with that
+// name satisfies the test (x/net/html keeps a namespaced attribute such as xlink:href and a plain href as two
+// attributes with the same Key): the only answer given inside the loop is "matches" - an attribute that fails the
+// test never ends the search - and "does not match" is given after the loop only.
+//@ func matchAttribute
+//@   props C05
+//@   requires n != nil
+//@   modifies anything
+//@   return 1 ensures[stops-only-at-a-satisfying-attribute] result
+//@   return 2 ensures[no-attribute-satisfied-the-test] !result
